@@ -94,7 +94,14 @@ def main():
                    source_commits=commits, add_only=True),
         engines=[dict(name="tlc", path="/verif/check", serves_properties=sorted(CHECKS),
                       kind_free_text="TLC model checking of TLA+ specifications (specs/) + Go harness (harness/) driving the real library; "
-                                     "TLC validates recorded traces and generates behaviours that are replayed on the code")],
+                                     "TLC validates recorded traces and generates behaviours that are replayed on the code"),
+                 dict(name="apalache", path="/usr/local/bin/apalache-mc", serves_properties=["C03", "C11"],
+                      kind_free_text="inductive-invariant check of the flush protocol (specs/FlushInd.tla), run inside ./check C03; "
+                                     "an obligation that does not finish is recorded and does not change the verdict"),
+                 dict(name="tlapm", path="/usr/local/bin/tlapm", serves_properties=["C03", "C17", "C18"],
+                      kind_free_text="TLAPS proofs of inductive invariants for every value of the constants (specs/FlushProof.tla in the "
+                                     "thorough tier of C03, StoreProof.tla and FileStoreProof.tla in C17 / C18); recorded in the evidence, "
+                                     "never changes a verdict")],
         checks=checks,
         not_applicable=[dict(property_id=p, reason=r) for p, r in NA if p not in CHECKS],
         notes="See DESIGN.md. Exit 2 of a check means the machinery could not decide (never reported as a violation).",
